@@ -160,4 +160,17 @@ Proof.
     rewrite H0, beq_refl in E. discriminate.
   - eauto.
 Qed.
+
+(* non-interference: a registration for another (method, full path) never changes which handler
+   answers (method m, path full), wherever it sits in the registration order *)
+Lemma first_match_other_irrelevant m full prefix pre m' p' h' post :
+  ~ (m' = m /\ prefix ++ p' = full) ->
+  first_match m full prefix (pre ++ (m', p', h') :: post) = first_match m full prefix (pre ++ post).
+Proof.
+  clear run_handler. intros HN. induction pre as [|[[m2 p2] h2] pre IH]; cbn [app first_match].
+  - destruct (method_eqb m m' && beq full (prefix ++ p')) eqn:E; [|reflexivity].
+    apply andb_prop in E. destruct E as [E1 E2].
+    apply method_eqb_eq in E1. apply beq_eq in E2. subst. exfalso. apply HN. auto.
+  - rewrite IH. reflexivity.
+Qed.
 End R.
